@@ -86,3 +86,66 @@ func addAbsURLCase(c *Corr, src string, pageURL *nurl.URL, replay interface{}) {
 	distiller.VerifMakeAllLinksAbsolute(body, pageURL)
 	c.add(sb.String(), elemAttrsLine(body), replay)
 }
+
+// textblocks: grouping of Text elements into blocks, and the flags ApplyToModel writes back for
+// the blocks the real article extractor ended with (Model/TextDoc.lean)
+func addTextBlocksCase(c *Corr, src string, pageURL *nurl.URL, skipUnlikely bool, replay interface{}) {
+	d := parseDoc(src)
+	root := d.elementRoot()
+	if root == nil {
+		return
+	}
+	b := distiller.VerifBlocks(root, pageURL, skipUnlikely)
+	var sb strings.Builder
+	fmt.Fprintf(&sb, "%d", len(b.Groups))
+	for _, g := range b.Groups {
+		fmt.Fprintf(&sb, " %d", g)
+	}
+	fmt.Fprintf(&sb, " %d", len(b.Final))
+	for _, f := range b.Final {
+		fmt.Fprintf(&sb, " %d", len(f.Members))
+		for _, m := range f.Members {
+			fmt.Fprintf(&sb, " %d", m)
+		}
+		fmt.Fprintf(&sb, " %s %s", b01(f.IsContent), b01(f.Title))
+	}
+	var init, flags []string
+	for _, blk := range b.Initial {
+		var ms []string
+		for _, m := range blk {
+			ms = append(ms, fmt.Sprint(m))
+		}
+		init = append(init, strings.Join(ms, ","))
+	}
+	for i := range b.Flags {
+		flags = append(flags, b01(b.Flags[i])+b01(b.Titles[i]))
+	}
+	c.add(sb.String(), strings.Join(init, ";")+" | "+strings.Join(flags, " "), replay)
+	// premise of C03.flag_per_block: the filters only merge adjacent blocks or drop whole
+	// blocks — the final blocks hold Text elements in document order, each at most once, and
+	// every initial block lies inside one final block or is dropped as a whole
+	owner := map[int]int{}
+	last := -1
+	ordered := true
+	for bi, f := range b.Final {
+		for _, m := range f.Members {
+			if m <= last {
+				ordered = false
+			}
+			last = m
+			owner[m] = bi + 1
+		}
+	}
+	split := false
+	for _, blk := range b.Initial {
+		for _, m := range blk {
+			if owner[m] != owner[blk[0]] {
+				split = true
+			}
+		}
+	}
+	next := len(b.Groups)
+	if !ordered || split || next != len(b.Groups) {
+		c.premiseFailures = append(c.premiseFailures, fmt.Sprintf("final blocks are not merges of initial blocks in document order (ordered=%v split=%v)", ordered, split))
+	}
+}
